@@ -20,7 +20,7 @@ func judgeC05(c *fw.Ctx, sc *SnapCase) {
 	oOn, _ := observe(&on)
 	c.Rec.Eval()
 	c.Rec.Count("gen:" + sc.Kind)
-	c.Rec.Count("set:" + sc.TMS.String())
+	countSet(c.Rec, sc)
 	if !oOff.Valid {
 		c.Rec.Count("invalid_input")
 	}
@@ -76,7 +76,7 @@ func judgeC05(c *fw.Ctx, sc *SnapCase) {
 }
 
 func init() {
-	pr := &Profile{Sets: defaultSets, Kinds: allKinds, Huge: true}
+	pr := &Profile{Sets: defaultSets, Kinds: allKinds, Huge: true, Zoo: true}
 	fw.Register(&fw.Prop{
 		ID: "C05", Cases: tierN(200000, 3000000),
 		Run: func(c *fw.Ctx) {
